@@ -68,7 +68,10 @@ QUERIES = TIMEQ + ['val2idx_nearest', 'val2idx_bounds', 'val2idx_exact', 'repr',
            # latitude / longitude); assignments to several targets at once and into an array-valued global attribute with
            # inplace=False; deleting / renaming in the wrapper pncexpr returns
            'slice_dim_range', 'interpvars', 'extract_lonlat', 'eval_tuple', 'pncexpr_tuple', 'eval_attrarr', 'pncexpr_attrarr',
-           'pncexpr_del', 'pncexpr_rename']
+           'pncexpr_del', 'pncexpr_rename',
+           # a variable reached through the file object in an expression (the only way to name a key that is no identifier);
+           # index arrays with missing entries (what an exact lookup returns) handed to a pointwise selection
+           'eval_selfvar', 'pncexpr_ifilevar', 'slice_maskedidx']
 
 
 def _pure(rng):
@@ -121,12 +124,25 @@ def gen(rng, tier):
         out.append(dict(kind='pure', spec=spec, op=q, tunits='hours since 2001-02-03 00:00:00+0000', disk=True))
     # the functional helpers and the statements that write, on every run, on files that have coordinate variables
     for q in ('slice_dim', 'slice_dim_range', 'getvarpnc', 'pncrename', 'interpvars', 'extract_lonlat', 'eval_tuple', 'pncexpr_tuple',
-              'eval_attrarr', 'pncexpr_attrarr', 'pncexpr_del', 'pncexpr_rename', 'eval_aug', 'pncexpr_aug'):
+              'eval_attrarr', 'pncexpr_attrarr', 'pncexpr_del', 'pncexpr_rename', 'eval_aug', 'pncexpr_aug', 'eval_selfvar',
+              'pncexpr_ifilevar', 'slice_maskedidx'):
         spec = pfile.gen_file(rng, maxlen=3, coord_prob=1.0, scalar_prob=0.0)
         for v in spec['vars']:
             if v['dtype'] == 'f':
                 v['dtype'] = 'd'
         out.append(dict(kind='pure', spec=spec, op=['query', q], tunits='hours since 2001-02-03 00:00:00+0000', disk=False))
+    # on every run: a file stacked with itself along a dimension that a masked variable with missing cells does not have
+    # (a static field next to the time series): the result has its own copy of it
+    for _ in range(200):
+        spec = pfile.gen_file(rng, maxlen=3, masked_prob=0.7, scalar_prob=0.0)
+        for v in spec['vars']:
+            if v['dtype'] == 'f':
+                v['dtype'] = 'd'
+        cand = [(v, d[0]) for v in spec['vars'] for d in spec['dims']
+                if v['masked'] and any(x is None for x in v['data']) and d[0] not in v['dims'] and d[1] >= 1]
+        if cand:
+            out.append(dict(kind='pure', spec=spec, op=['stackself', cand[0][1]], tunits='hours since 2001-02-03 00:00:00+0000', disk=False))
+            break
     # the history that used to break another file (double close through the finaliser)
     out.append(dict(kind='hist', evs=[['o', 0], ['c', 0], ['o', 1], ['d', 0]]))
     out.append(dict(kind='hist', evs=[['o', 0], ['o', 1], ['c', 0], ['c', 0], ['o', 2], ['c', 0], ['d', 0]]))
@@ -265,7 +281,7 @@ def _query(f, q, spec):
         import tempfile
         p = tempfile.mktemp(suffix='.nc', prefix='pncverif_c05s_')
         try:
-            o = f.save(p, format='NETCDF4_CLASSIC', verbose=0)
+            o = f.save(p, format=pfile.disk_format(spec), verbose=0)
             try:
                 o.close()
             except Exception:
@@ -362,6 +378,37 @@ def _query(f, q, spec):
         if q == 'eval_tuple':
             return f.eval(expr)
         return F.pncexpr(expr, f), ['NEWVAR']
+    if q in ('eval_selfvar', 'pncexpr_ifilevar'):
+        ks = [k for k in f.variables if k not in coords and f.variables[k].ndim > 0]
+        if not ks:
+            return None
+        if q == 'eval_selfvar':
+            return f.eval("NEWVAR = self.variables['%s'][:]" % ks[0])
+        return F.pncexpr("NEWVAR = ifile.variables['%s'][:]" % ks[0], f), ['NEWVAR']
+    if q == 'slice_maskedidx':
+        # a file of its own: a masked variable with a missing cell, two coordinates; the second index array comes from an exact
+        # lookup of values that are partly no coordinate values (a masked integer array)
+        h = pnc.PseudoNetCDFFile()
+        h.createDimension('t', 2)
+        h.createDimension('y', 3)
+        h.createDimension('x', 4)
+        for k, dims, vals in (('y', ('y',), [1., 2., 3.]), ('x', ('x',), [10., 20., 30., 40.])):
+            v = h.createVariable(k, 'd', dims)
+            v[:] = vals
+        m = h.createVariable('M', 'd', ('t', 'y', 'x'), fill_value=-999.)
+        m[:] = np.ma.masked_equal(np.arange(24.).reshape(2, 3, 4), 5.)
+        p = h.createVariable('P', 'd', ('t', 'y', 'x'))
+        p[:] = np.arange(24.).reshape(2, 3, 4)
+        before = _snap(h)
+        i = h.val2idx('x', [20., 25., 40.], method='exact', bounds='ignore')
+        try:
+            h.sliceDimensions(y=[2, 0, 1], x=i)
+        except Exception:
+            pass            # refusing index arrays with missing entries is fine; the receiver stays as it is
+        d = _diffsnap(before, _snap(h))
+        if d:
+            raise lib.HarnessError('ARGCHANGED a pointwise selection with a masked index array changed its receiver: %s' % d)
+        return None
     if q in ('eval_attrarr', 'pncexpr_attrarr'):
         # an array-valued global attribute (level edges) written into by a statement of the expression
         h = pnc.PseudoNetCDFFile()
@@ -499,7 +546,7 @@ def _impl(case):
         import PseudoNetCDF as pnc
         dpath = tempfile.mktemp(suffix='.nc', prefix='pncverif_c05d_')
         with lib.pnc_warnings():
-            f.save(dpath, format='NETCDF4_CLASSIC', verbose=0).close()
+            f.save(dpath, format=pfile.disk_format(spec), verbose=0).close()
             f = pnc.pncopen(dpath, format='netcdf')
     try:
         return _impl_pure(case, spec, f)
